@@ -1184,11 +1184,7 @@ func (s *Entry) printLoggerName(pc *PrintCtx) {
 	if s.name != "" {
 		if pc.noColor { // json or logfmt
 			if pc.jsonMode {
-				pc.pcAppendStringKey("logger")
-				pc.pcAppendColon()
-				pc.pcAppendByte('"')
-				pc.pcAppendStringValue(s.name)
-				pc.pcAppendByte('"')
+				pc.AddString("logger", s.name)
 			} else {
 				pc.AddString("logger", s.name)
 			}
